@@ -35,15 +35,15 @@ type ship1Opts struct {
 	failOnce      bool
 	noWaiting     float64 // probability that waiting for trust is not allowed
 	roles         []string
-	lateFrames    int      // frames still delivered after the transport was closed
-	noPeerHelloEv bool     // the peer never sends unsolicited hello events (abort, prolongation)
+	lateFrames    int  // frames still delivered after the transport was closed
+	noPeerHelloEv bool // the peer never sends unsolicited hello events (abort, prolongation)
 	// inject, if set, is asked before every peer event: when it returns ok the
 	// frame is delivered at once (a frame that must meet a particular state)
-	inject func(state int) (frame, class string, ok bool)
-	asyncConnErr  float64  // probability of a transport error reported from a second goroutine (the ws write pump)
-	amOrders      []string // order variants of the access-methods exchange (C09)
-	noAmDeviants  bool
-	timelyTail    bool // after the event budget the peer keeps answering at once (no input-free quiet period)
+	inject       func(state int) (frame, class string, ok bool)
+	asyncConnErr float64  // probability of a transport error reported from a second goroutine (the ws write pump)
+	amOrders     []string // order variants of the access-methods exchange (C09)
+	noAmDeviants bool
+	timelyTail   bool // after the event budget the peer keeps answering at once (no input-free quiet period)
 }
 
 type ship1 struct {
